@@ -41,8 +41,8 @@ RecOf(t) ==
      sealed |-> t.wsec = 1,
      auth   |-> t.auth = 1,
      gen    |-> IF t.wsec = 1 THEN t.auth = 1 /\ t.origin \in {0, 4}
-                ELSE t.origin \in {0, 6, 7} /\ t.itype # -1,
-     free   |-> t.wsec = 0 /\ t.origin # 0,
+                ELSE t.origin \in {0, 4, 6, 7} /\ t.itype # -1,   \* a replayed copy carries the peer's own bytes
+     free   |-> t.wsec = 0 /\ t.origin \notin {0, 4},
      frag   |-> t.origin \in {1, 2, 7},
      alvl   |-> IF t.alvl >= 0 THEN t.alvl ELSE 1,
      adesc  |-> IF t.adesc >= 0 THEN t.adesc ELSE 10]
@@ -70,7 +70,9 @@ MatchRecv(t, s, r, res) ==
     LET n == res.next IN
     /\ ~res.loose => Gates(t) = res.gate /\ Accs(t) = res.acc
     \* still waiting for the rest of a record/message: nothing was accepted, reported or changed
-    /\ (res.loose /\ Live(n)) => Accs(t) = <<>> /\ Len(t.alin) = 0 /\ t.rc \in {"RequestRecv", "Success"}
+    /\ (res.loose /\ Live(n)) => /\ Accs(t) = <<>> /\ Len(t.alin) = 0
+                                /\ (t.rc \in {"RequestRecv", "Success"} \/ (s.cfg.dtls /\ t.rc = "RequestSend"))
+                                /\ (s.cfg.dtls => (t.hs = s.hs /\ (t.rs = 1) = ReadSecure(s)))
     /\ Len(t.dlv) = res.ndlv
     /\ r.gen => \A i \in 1..Len(t.dlv) : t.dlv[i].ok = 1  \* what is delivered is what the peer application sent
     /\ ObsDead(t, s) = (n.dead # "no")
@@ -187,7 +189,10 @@ NextEpisode(i) ==
 TReject ==
     /\ l <= Len(TraceLog)
     /\ ~ENABLED TraceNormal
-    /\ PrintT(<<"TRACE_REJECT_LINE", l>>)
+    /\ PrintT(<<"TRACE_REJECT_LINE", l,
+                IF "ep" \in DOMAIN Line /\ Line.ep \in DOMAIN sess
+                THEN <<sess[Line.ep].dead, sess[Line.ep].hs, sess[Line.ep].rd, sess[Line.ep].done, sess[Line.ep].desync>>
+                ELSE <<"-", "-", "-", FALSE, FALSE>> >>)
     /\ l' = NextEpisode(l)
     /\ sess' = [x \in {} |-> 0]
 
